@@ -184,15 +184,27 @@ def load_test_defs():
 
 
 def all_classes(W: VC.World) -> List[type]:
+    """every class with fields, and the classes **without** fields (signals: EXIT, KILL, ACKNOWLEDGE, …): they have no bytes
+    to round-trip, but header-plus-data JSON, the version check and copies concern them like any other class"""
     cls = list(W.load_core())
+    import pyrtma.core_defs as cd
+    mods = [cd]
     td = load_test_defs()
     if td is not None:
+        mods.append(td)
         for obj in vars(td).values():
             if isinstance(obj, type) and issubclass(obj, W.MessageBase) and obj.__module__ == td.__name__ \
                     and ctypes.sizeof(obj) > 0:
                 W.tid_for(obj)
                 cls.append(obj)
-    return cls + [W.M, W.N, W.O, W.structs[1]]
+    signals = []
+    for mod in mods:
+        for obj in vars(mod).values():
+            if isinstance(obj, type) and issubclass(obj, W.MessageBase) and obj.__module__ == mod.__name__ \
+                    and ctypes.sizeof(obj) == 0 and obj not in signals:
+                W.tid_for(obj)
+                signals.append(obj)
+    return cls + signals + [W.M, W.N, W.O, W.structs[1]]
 
 
 # ----------------------------------------------------------------------------------------------------------
@@ -328,6 +340,8 @@ def heap_script(W: VC.World, cls, m, rng, is_msg: bool) -> List[str]:
                     raise C.MachineryError("a nested struct is not where the field table says")
                 add(v)
                 lines.append(f"HOP V {k} {off} {sz} {tid(sc)}")
+        elif n == 0:
+            continue                                     # (an object without bytes: nothing to write into)
         elif r < 0.9 or not hdrs:
             ln = rng.randrange(1, min(n, 6) + 1)
             off = rng.randrange(0, n - ln + 1)
@@ -393,10 +407,11 @@ def run_timecode_case(cid: str, cls, m, info: Dict[str, Any] = None) -> List[str
     return lines
 
 
-def run_case(cid: str, cls, m, info: Dict[str, Any] = None) -> List[str]:
+def run_case(cid: str, cls, m, info: Dict[str, Any] = None, extended: bool = False) -> List[str]:
     """`info["trouble"]`: the model-correspondence part of the block could not be produced because the code under test raised
     where the unchanged code never does (`to_dict()` / `to_json()` of a message built through the field API); the round trips
-    (each one guarded on its own) are still observed and judged by the Spec."""
+    (each one guarded on its own) are still observed and judged by the Spec.
+    `extended`: the version probes also on the indented text and on texts whose "data" member is missing / {} / null."""
     W = VC.world()
     _flag_force_on(W.V)
     b0 = bytes(m)
@@ -406,7 +421,7 @@ def run_case(cid: str, cls, m, info: Dict[str, Any] = None) -> List[str]:
         if info is not None:
             info["trouble"] = f"to_dict / to_json of a {cls.__name__} built through the field API raised {type(e).__name__}: {e}"[:300]
         lines = [f"SER {cid}"]
-    return lines + _trips_part(W, cls, m, b0, info)
+    return lines + _trips_part(W, cls, m, b0, info, extended)
 
 
 def _corr_part(W: VC.World, cls, m) -> List[str]:
@@ -447,7 +462,7 @@ def _corr_part(W: VC.World, cls, m) -> List[str]:
     return lines
 
 
-def _trips_part(W: VC.World, cls, m, b0: bytes, info) -> List[str]:
+def _trips_part(W: VC.World, cls, m, b0: bytes, info, extended: bool = False) -> List[str]:
     from pyrtma.message import Message, get_header_cls, _msg_defs
     from pyrtma.message_data import MessageData
     from pyrtma.exceptions import InvalidMessageDefinition
@@ -536,16 +551,49 @@ def _trips_part(W: VC.World, cls, m, b0: bytes, info) -> List[str]:
                     raise AssertionError("copy shares the header")
                 return c.data
             lines.append(f"RT message_copy_whole_{'timecode' if tc else 'plain'} " + _trip(whole))
-        for ver in sorted({0, cls.type_hash, cls.type_hash ^ 1, 1, 0xFFFFFFFF, (cls.type_hash + 1) & 0xFFFFFFFF}):
-            txt = Message(hdr(ver), m).to_json(minify=True)
+        def outcome(txt: str) -> str:
+            """R: refused as the property demands; A: a Message came back; F: any other exception"""
             try:
                 Message.from_json(txt)
-                refused = 0
+                return "A"
             except InvalidMessageDefinition:
-                refused = 1
-            except Exception:  # noqa: BLE001  any other exception is neither a proper refusal nor a decode
-                refused = 0 if (ver != 0 and ver != cls.type_hash) else 1
+                return "R"
+            except Exception:  # noqa: BLE001
+                return "F"
+
+        def data_ok(doc) -> int:
+            """the data segment by itself: `d["data"]` is there and `from_dict` takes it"""
+            try:
+                cls.from_dict(doc["data"])
+                return 1
+            except Exception:  # noqa: BLE001
+                return 0
+
+        for ver in sorted({0, cls.type_hash, cls.type_hash ^ 1, 1, 0xFFFFFFFF, (cls.type_hash + 1) & 0xFFFFFFFF}):
+            mismatch = ver != 0 and ver != cls.type_hash
+            txt = Message(hdr(ver), m).to_json(minify=True)
+            oc = outcome(txt)
+            # any other exception is neither a proper refusal nor a decode
+            refused = 1 if oc == "R" else 0 if oc == "A" else (0 if mismatch else 1)
             lines.append(f"VER {ver} {cls.type_hash} {refused}")
+            if not extended:
+                continue
+            # the same question for the indented text and for texts whose "data" member is missing / {} / null: a foreign
+            # version is refused before the data segment is looked at, whatever the class (also one without fields)
+            texts = [("pretty", 0, Message(hdr(ver), m).to_json())]
+            base = json.loads(txt)
+            for what, edit in (("no_data", lambda d: d.pop("data")), ("data_empty", lambda d: d.__setitem__("data", {})),
+                               ("data_null", lambda d: d.__setitem__("data", None))):
+                doc = json.loads(txt)
+                edit(doc)
+                if doc == base:
+                    continue                   # (a class without fields: "data": {} is what to_json wrote)
+                texts.append(("min_" + what, 1, json.dumps(doc, separators=(",", ":"))))
+                texts.append(("pretty_" + what, 1, json.dumps(doc, indent=2)))
+            for what, altered, t in texts:
+                oc = outcome(t)
+                refused = 1 if oc == "R" else 0 if oc == "A" else (0 if mismatch else 1)
+                lines.append(f"VER {ver} {cls.type_hash} {refused} {what} {altered} {oc} {data_ok(json.loads(t))}")
     # copy shares no storage: flip every byte of the copy, then of the original
     shares = 0
     try:
